@@ -106,6 +106,9 @@ func writeEvidence(prop, tier string, seed uint64, spec engine.PropSpec, a *Agg,
 		"violations":  violations,
 	}
 	dir := filepath.Join(verifDir(), "evidence")
+	if d := os.Getenv("VERIF_EVIDENCE_DIR"); d != "" {
+		dir = d
+	}
 	if err := os.MkdirAll(dir, 0o755); err != nil {
 		return err
 	}
